@@ -367,7 +367,7 @@ def with_move_at_every_position(execs, rng, maxn):
     return out
 
 
-THOROUGH_SCALE = {"C01": 40.0, "C02": 40.0, "C03": 120.0, "C04": 100.0, "C05": 150.0, "C06": 150.0, "C07": 150.0, "C12": 90.0,
+THOROUGH_SCALE = {"C01": 20.0, "C02": 20.0, "C03": 120.0, "C04": 100.0, "C05": 150.0, "C06": 150.0, "C07": 150.0, "C12": 90.0,
                   "C15": 150.0, "C18": 60.0}
 
 
